@@ -250,8 +250,15 @@ def job_pexit(version):
     return harness.plain_job(f"data nu2tau_pexit.{version}", lambda: tables.check_pexit_table(version))
 
 
+def job_init(tier):
+    """the exit-probability (and CDF) table loaded by the real Taus.__init__ is the configured version's file (C04's job)"""
+    from props import c04 as P4
+
+    return P4.job_init(tier)
+
+
 def jobs(tier, seed):
-    out = []
+    out = [("init", "job_init", {"tier": tier})]
     for w in ("inside", "below", "above"):
         out.append((f"m{w}", "job_main", {"nE": 2, "nB": 2, "where": w, "tier": tier}))
     if tier == "thorough":
@@ -291,6 +298,10 @@ def replay(v):
     import numpy as np
 
     job, ob = v.get("job", ""), v["obligation"]
+    if job.startswith("Taus.__init__"):
+        from props import c04 as P4
+
+        return P4.replay(v)
     if job.startswith("data "):
         return tables.replay_data(v)
     m = v.get("model") or {}
